@@ -135,7 +135,7 @@ def _cases():
 
 
 def phases(tier):
-    n = 12000 if tier == "quick" else 800000
+    n = 12000 if tier == "quick" else 200000
     other = lambda which: _cases().map(lambda c: {**c, "tokenizer": which})
     return [Phase("docs", "gen", strategy=_cases, n=n), Phase("long-prose-before", "gen", strategy=_long_prose_before, n=n // 4),
             Phase("docs-hs", "gen", strategy=lambda: other("hs"), n=n // 10), Phase("docs-ref", "gen", strategy=lambda: other("ref"), n=n // 20)]
